@@ -39,10 +39,14 @@ pub enum T {
     PA = 10,
     /// a second synthetic `fn() -> bool`, slot 4
     B1 = 11,
+    /// synthetic forwarder `jmp rel32` to slot 1 (an optimised tail-call wrapper), slot 2
+    TJ = 12,
 }
-pub const NT: usize = 12;
-pub const ALL_T: [T; NT] = [T::F0, T::F1, T::B0, T::G, T::C, T::A0, T::FS, T::TH, T::P0, T::P1, T::PA, T::B1];
+pub const NT: usize = 13;
+pub const ALL_T: [T; NT] = [T::F0, T::F1, T::B0, T::G, T::C, T::A0, T::FS, T::TH, T::P0, T::P1, T::PA, T::B1, T::TJ];
 pub const PA_ADDR: u64 = ARENA + 0x800_0000;
+/// a synthetic function in a page of its own that is only ever the target of refused installations
+pub const RT_ADDR: u64 = PA_ADDR + 0x10_0000;
 pub const PACKED: u64 = ARENA + 0xA00;
 
 /// installation flavours
@@ -58,6 +62,8 @@ pub enum K {
     BoolF = 6,
     AsyncV1 = 7,
     AsyncV2 = 8,
+    /// `fake!` with a call-count expectation that is never met: the injector's scope exit panics
+    FakeTimesUnmet = 9,
 }
 
 pub const ARENA: u64 = 0x2000_0000;
@@ -118,6 +124,11 @@ fk0!(fk_th_a, 0xA7);
 fk0!(fk_p0_a, 0xA8);
 fk0!(fk_p1_a, 0xA9);
 fk0!(fk_pa_a, 0xAA);
+fk0!(fk_tj_a, 0xAB);
+#[inline(never)]
+pub fn fk_b0_a() -> bool {
+    std::hint::black_box(true)
+}
 #[inline(never)]
 pub fn fk_g_a(_x: u32) -> u32 {
     std::hint::black_box(0xA3)
@@ -143,6 +154,7 @@ pub fn orig(t: T) -> u32 {
         T::P1 => 0x2001,
         T::PA => 0x3000,
         T::B1 => 0x1004,
+        T::TJ => 0x1001,
     }
 }
 
@@ -153,10 +165,12 @@ pub fn faked(t: T, k: K) -> u32 {
         (T::F0, K::RawB) => 0xB0,
         (T::F0, K::Fake) => 0xF0,
         (T::F0, K::Unchecked) => 0xC0,
+        (T::F0, K::FakeTimesUnmet) => 0xF1,
         (T::F1, K::RawA) => 0xA1,
         (T::F1, K::Closure) => 0xC1,
         (T::B0, K::BoolT) => 1,
         (T::B0, K::BoolF) => 0,
+        (T::B0, K::RawA) => 1,
         (T::G, K::RawA) => 0xA3,
         (T::G, K::Closure) => 0xC3,
         (T::C, K::RawA) => 0xA4,
@@ -168,6 +182,7 @@ pub fn faked(t: T, k: K) -> u32 {
         (T::P0, K::RawA) => 0xA8,
         (T::P1, K::RawA) => 0xA9,
         (T::PA, K::RawA) => 0xAA,
+        (T::TJ, K::RawA) => 0xAB,
         (T::B1, K::BoolT) => 1,
         (T::B1, K::BoolF) => 0,
         _ => panic!("harness: no such installation {t:?} {k:?}"),
@@ -177,14 +192,15 @@ pub fn faked(t: T, k: K) -> u32 {
 pub fn valid(t: T, k: K) -> bool {
     matches!(
         (t, k),
-        (T::F0, K::RawA | K::RawB | K::Fake | K::Unchecked)
+        (T::F0, K::RawA | K::RawB | K::Fake | K::Unchecked | K::FakeTimesUnmet)
             | (T::F1, K::RawA | K::Closure)
             | (T::B0 | T::B1, K::BoolT | K::BoolF)
+            | (T::B0, K::RawA)
             | (T::G, K::RawA | K::Closure)
             | (T::C, K::RawA)
             | (T::A0, K::AsyncV1 | K::AsyncV2)
             | (T::FS, K::RawA | K::RawB)
-            | (T::TH | T::P0 | T::P1 | T::PA, K::RawA)
+            | (T::TH | T::P0 | T::P1 | T::PA | T::TJ, K::RawA)
     )
 }
 
@@ -251,6 +267,10 @@ impl World {
             let mut th = vec![0xFF, 0x25, 0, 0, 0, 0];
             th.extend_from_slice(&slot_addr(14).to_le_bytes());
             arena::write(slot_addr(13), &th);
+            // slot 2: jmp rel32 -> slot 1
+            let mut tj = vec![0xE9];
+            tj.extend_from_slice(&((slot_addr(1) as i64 - (slot_addr(2) as i64 + 5)) as i32).to_le_bytes());
+            arena::write(slot_addr(2), &tj);
             arena::write(PACKED, &arena::x64_ret_const(0x2000, 8));
             arena::write(PACKED + 8, &arena::x64_ret_const(0x2001, 8));
         }
@@ -261,6 +281,12 @@ impl World {
             arena::write(PA_ADDR, &arena::x64_ret_const(0x3000, 16));
         }
         assert!(arena::protect(PA_ADDR, 0x1000, arena::RX));
+        arena::map_fixed(RT_ADDR, 0x1000, arena::RW).expect("refusal target page");
+        unsafe {
+            std::ptr::write_bytes(RT_ADDR as *mut u8, 0xCC, 0x1000);
+            arena::write(RT_ADDR + 0x40, &arena::x64_ret_const(0x4000, 16));
+        }
+        assert!(arena::protect(RT_ADDR, 0x1000, arena::RX));
         let a0_addr = {
             let fut = a0(0);
             poll_fn_addr(&fut) as u64
@@ -278,6 +304,7 @@ impl World {
             PACKED + 8,
             PA_ADDR,
             slot_addr(4),
+            slot_addr(2),
         ];
         let mut w = World { addr, pre: Vec::new(), arena_pre: Vec::new(), with_fs };
         w.pre = ALL_T.iter().map(|&t| w.image(t)).collect();
@@ -294,6 +321,7 @@ impl World {
     pub fn reprotect(&self) {
         assert!(arena::protect(ARENA, ARENA_LEN, arena::RX));
         assert!(arena::protect(PA_ADDR, 0x1000, arena::RX));
+        assert!(arena::protect(RT_ADDR, 0x1000, arena::RX));
         for &t in &[T::G, T::C, T::A0] {
             let a = self.addr[t as usize] & !0xFFF;
             arena::protect(a, 0x2000, arena::RX);
@@ -302,8 +330,17 @@ impl World {
 
     /// Call the target the way a user would and return what came back (for A0 the awaited value).
     pub fn call(&self, t: T) -> u32 {
+        let v = self.call_raw(t);
+        // a `fn() -> bool` defines only the low byte of the result register
+        if matches!(t, T::B0 | T::B1) && v != orig(t) {
+            return v & 0xFF;
+        }
+        v
+    }
+
+    fn call_raw(&self, t: T) -> u32 {
         match t {
-            T::F0 | T::F1 | T::B0 | T::B1 | T::FS | T::TH | T::P0 | T::P1 | T::PA => unsafe { arena::call_u32(self.addr[t as usize]) },
+            T::F0 | T::F1 | T::B0 | T::B1 | T::FS | T::TH | T::P0 | T::P1 | T::PA | T::TJ => unsafe { arena::call_u32(self.addr[t as usize]) },
             T::G => g(5),
             T::C => unsafe {
                 let f: AtoiFn = std::hint::black_box(libc::atoi as AtoiFn);
@@ -317,7 +354,7 @@ impl World {
     /// function, another instantiation family, the sibling async function, a libc neighbour.
     pub fn call_non_targets(&self) -> Vec<u32> {
         let mut v = Vec::new();
-        for i in [6usize, 7, 11, 12, 14, 15] {
+        for i in [1usize, 6, 7, 11, 12, 14, 15] {
             v.push(unsafe { arena::call_u32(slot_addr(i)) });
         }
         v.push(g_sibling(5));
@@ -332,7 +369,7 @@ impl World {
     }
 
     pub fn non_target_expect() -> Vec<u32> {
-        vec![0x1006, 0x1007, 0x100B, 0x100C, 0x100E, 0x100F, 22, 1001, 4001, 7, 9]
+        vec![0x1001, 0x1006, 0x1007, 0x100B, 0x100C, 0x100E, 0x100F, 22, 1001, 4001, 7, 9]
     }
 }
 
@@ -358,6 +395,9 @@ pub fn install(w: &World, injector: &mut InjectorPP, t: T, k: K) {
         (T::F0, K::Fake) => injector
             .when_called(inj::func!(as_fn0(a), fn() -> u32))
             .will_execute(inj::fake!(func_type: fn() -> u32, returns: 0xF0)),
+        (T::F0, K::FakeTimesUnmet) => injector
+            .when_called(inj::func!(as_fn0(a), fn() -> u32))
+            .will_execute(inj::fake!(func_type: fn() -> u32, returns: 0xF1, times: 1000000000)),
         (T::F0, K::Unchecked) => unsafe {
             injector
                 .when_called_unchecked(inj::func_unchecked!(as_fn0(a)))
@@ -369,6 +409,9 @@ pub fn install(w: &World, injector: &mut InjectorPP, t: T, k: K) {
         (T::F1, K::Closure) => injector
             .when_called(inj::func!(as_fn0(a), fn() -> u32))
             .will_execute_raw(inj::closure!(|| -> u32 { std::hint::black_box(0xC1) }, fn() -> u32)),
+        (T::B0, K::RawA) => injector
+            .when_called(inj::func!(as_fnb(a), fn() -> bool))
+            .will_execute_raw(inj::func!(fk_b0_a, fn() -> bool)),
         (T::B0 | T::B1, K::BoolT) => injector.when_called(inj::func!(as_fnb(a), fn() -> bool)).will_return_boolean(true),
         (T::B0 | T::B1, K::BoolF) => injector.when_called(inj::func!(as_fnb(a), fn() -> bool)).will_return_boolean(false),
         (T::G, K::RawA) => injector
@@ -406,6 +449,9 @@ pub fn install(w: &World, injector: &mut InjectorPP, t: T, k: K) {
         (T::PA, K::RawA) => injector
             .when_called(inj::func!(as_fn0(a), fn() -> u32))
             .will_execute_raw(inj::func!(fk_pa_a, fn() -> u32)),
+        (T::TJ, K::RawA) => injector
+            .when_called(inj::func!(as_fn0(a), fn() -> u32))
+            .will_execute_raw(inj::func!(fk_tj_a, fn() -> u32)),
         _ => panic!("harness: no such installation {t:?} {k:?}"),
     }
 }
